@@ -69,6 +69,7 @@ class SpliceInterp:
                 self.prefixers.add(g.name)
         if len(self.prefixers) != 1:
             raise Undecided(f"prefixer function: expected one nested function reading the prefix stack, found {sorted(self.prefixers)}")
+        self.nested = {g.name: g for g in ctx.P.funcs.values() if g.parent is call and g.name not in self.prefixers}
         self.sinks: List[Sink] = []
         self.cmps: List[Cmp] = []
         self.appends: Dict[str, List[ast.AST]] = {}
@@ -273,6 +274,16 @@ class SpliceInterp:
         last = d.split(".")[-1]
         if isinstance(f, ast.Name) and f.id in self.prefixers and len(e.args) == 1:
             return self.pref(self.ev(e.args[0], env))
+        if isinstance(f, ast.Name) and f.id in self.nested and not e.keywords:
+            # a nested one-expression helper: evaluated in place, its parameters bound to the abstract arguments
+            g = self.nested[f.id]
+            body = [st for st in g.node.body if not (isinstance(st, ast.Expr) and isinstance(st.value, ast.Constant))]
+            ps = [a.arg for a in g.node.args.args]
+            if len(body) == 1 and isinstance(body[0], ast.Return) and body[0].value is not None and len(ps) == len(e.args):
+                env2 = dict(env)
+                for p_, a_ in zip(ps, e.args):
+                    env2[p_] = self.ev(a_, env)
+                return self.ev(body[0].value, env2)
         if last == "UsageExecNode":
             a = self.ev(e.args[0], env) if e.args else None
             self.sink("UsageExecNode(id)", e, a)
